@@ -467,10 +467,37 @@ def check_ops(run, r, g, tier):
         if r.random() < 0.3:
             for v in t.get_vars()[:1]:
                 inst.var_inst[v.name] = g.closed(v.T, 1) if r.random() < 0.7 else g.closed(g.mutate_type(v.T), 1)
-        ginst = g_inst(inst)        # before the call: subst extends inst.tyinst
-        for inp in (t, tshared):
-            res, err = attempt(lambda: inp.subst(copy.copy(inst) if False else Inst_copy(inst)))
-            add('case_tm_subst %s %s %s' % (ginst, g_tm(inp), g_opt(res, g_tm)), 'subst', (repr(inp), sstr(inst)), res, err)
+        insts = [inst]
+        # directed: the replacement itself mentions the schematic type variable that is being instantiated (the type
+        # instantiation is for the pattern only; replacements are inserted as they are)
+        svs = [v for v in t.get_svars() if v.T.get_stvars()]
+        if svs:
+            v = r.choice(svs)
+            nm = v.T.get_stvars()[0].name
+            inner = r.choice([TFun(STVar(nm), STVar(nm)), TFun(STVar(nm), BoolType), TFun(BoolType, STVar(nm))])
+            VT = v.T.subst(TyInst(**{nm: inner}))
+            inst2 = Inst()
+            inst2[v.name] = Var('y_repl', VT) if r.random() < 0.6 else g.closed(VT, 1)
+            if r.random() < 0.5:
+                inst2.tyinst[nm] = inner
+            insts.append(inst2)
+        for inst in insts:
+            ginst = g_inst(inst)        # before the call: subst extends inst.tyinst
+            for inp in (t, tshared):
+                used = Inst_copy(inst)
+                res, err = attempt(lambda: inp.subst(used))
+                add('case_tm_subst %s %s %s' % (ginst, g_tm(inp), g_opt(res, g_tm)), 'subst', (repr(inp), sstr(inst)), res, err)
+                T0 = typ_of(inp)
+                if res is not None and T0 is not None and all(typ_of(w) is not None for w in list(inst.values()) + list(inst.var_inst.values())):
+                    # every replaced variable receives a term of its (instantiated) type => the result has the instantiated type
+                    fits = all(typ_of(inst[v.name]) == v.T.subst(used.tyinst) for v in inp.get_svars() if v.name in inst) and \
+                        all(typ_of(inst.var_inst[v.name]) == v.T.subst(used.tyinst) for v in inp.get_vars() if v.name in inst.var_inst)
+                    T1 = typ_of(res)
+                    if fits and (T1 is None or T1 != T0.subst(used.tyinst)):
+                        run.violation('property', 'Term.subst does not preserve typing: %s with %s gives %s' % (sstr(inp), sstr(inst), sstr(res)),
+                                      dict(term=repr(inp), inst=sstr(inst), result=repr(res), type_before=str(T0), type_after=str(T1),
+                                           tyinst_after_call=str(used.tyinst)), key='C03:subst-typing')
+                    run.stat('subst_typing_judged' if fits else 'subst_typing_not_applicable')
         run.count(('ops', i), nontrivial=True)
     codes = coq_eval_nats(run.wd, IMPORTS, exprs, tag='ops', shard=200)
     dis = 0
